@@ -61,6 +61,8 @@ def call(ex, st, fn, args, kw, node):
             yield st, False; return
         if isinstance(v, Ref): yield st, S.is_subclass(v.cls, tn); return
         raise Unsupported("isinstance %r %r" % (v, t))
+    if name == "bool" and len(args) == 1:
+        t = ex.truth(args[0]); yield st, t; return
     if name in ("any", "all") and len(args) == 1 and isinstance(args[0], (list, tuple)):
         ts = [ex.truth(x) for x in args[0]]
         if all(not isinstance(t, Sym) for t in ts): yield st, (any(ts) if name == "any" else all(ts)); return
